@@ -70,6 +70,13 @@ def replay(path, top, diff, work):
     return out, sp
 
 
+def _src(path):
+    try:
+        return open(path).read()
+    except OSError:
+        return None
+
+
 def load_known():
     p = os.path.join(ROOT, "known_findings.json")
     return json.load(open(p)) if os.path.exists(p) else {"findings": [], "fixed": []}
@@ -146,7 +153,7 @@ def run_c19(tier, seed, write_evidence, only=None):
                 os.makedirs(os.path.join(ROOT, "evidence", "replay"), exist_ok=True)
                 rp = os.path.join(ROOT, "evidence", "replay",
                                   f"C19-{r['label'].replace('::', '_').replace('#', '_')}-{m['top']}.json")
-                json.dump(dict(property="C19", design=r["label"], path=r["path"], top=m["top"],
+                json.dump(dict(property="C19", design=r["label"], path=r["path"], source=_src(r["path"]), top=m["top"],
                                stimulus=d["stimulus"], clock=d.get("clock"), cfg=d.get("cfg"),
                                solver=dict(cycle=d["cycle"], port=d["port"], rtl=d["rtl_value"], netlist=d["netlist_value"]),
                                native=out.get("first_diff"),
@@ -163,7 +170,7 @@ def run_c19(tier, seed, write_evidence, only=None):
             os.makedirs(os.path.join(ROOT, "evidence", "replay"), exist_ok=True)
             rp = os.path.join(ROOT, "evidence", "replay",
                               f"C19-{r['label'].replace('::', '_').replace('#', '_')}-{m['top']}-structure.json")
-            json.dump(dict(property="C19", design=r["label"], path=r["path"], top=m["top"], cfg=d.get("cfg"),
+            json.dump(dict(property="C19", design=r["label"], path=r["path"], source=_src(r["path"]), top=m["top"], cfg=d.get("cfg"),
                            structural_difference=d.get("detail")), open(rp, "w"), indent=1)
             kf = next((f for f in known.get("findings", []) if f["property"] == "C19" and f.get("design") == key), None)
             if kf:
@@ -314,7 +321,7 @@ def run_c21_tv(tier, seed, only=None):
                           f"C21-{r['label'].replace('::', '_').replace('#', '_')}-{m['top']}-{tag}.json")
         os.makedirs(os.path.dirname(rp), exist_ok=True)
         ok = native_aig_replay(r["path"], m["top"], tag, v, work)
-        json.dump(dict(property="C21", design=r["label"], path=r["path"], top=m["top"], comparison=tag,
+        json.dump(dict(property="C21", design=r["label"], path=r["path"], source=_src(r["path"]), top=m["top"], comparison=tag,
                        solver=v, native_reproduced=ok), open(rp, "w"), indent=1, default=str)
         if ok:
             violations.append((key, rp))
@@ -534,7 +541,7 @@ def run_c18_tv(tier, seed, only=None):
             rp = os.path.join(ROOT, "evidence", "replay",
                               f"C18-{r['label'].replace('::', '_').replace('#', '_')}-{m['top']}-illtyped.json")
             os.makedirs(os.path.dirname(rp), exist_ok=True)
-            json.dump(dict(property="C18", design=r["label"], path=r["path"], top=m["top"], encoder=m.get("why"),
+            json.dump(dict(property="C18", design=r["label"], path=r["path"], source=_src(r["path"]), top=m["top"], encoder=m.get("why"),
                            native=msg, replay_cmd=f"{TVDUMP} jitdiff {r['path']} {m['top']} <any inputs json>"),
                       open(rp, "w"), indent=1)
             violations.append((key, rp))
@@ -561,7 +568,7 @@ def run_c18_tv(tier, seed, only=None):
             rp = os.path.join(ROOT, "evidence", "replay",
                               f"C18-{r['label'].replace('::', '_').replace('#', '_')}-{m['top']}.json")
             os.makedirs(os.path.dirname(rp), exist_ok=True)
-            json.dump(dict(property="C18", design=r["label"], path=r["path"], top=m["top"], inputs=m["inputs"],
+            json.dump(dict(property="C18", design=r["label"], path=r["path"], source=_src(r["path"]), top=m["top"], inputs=m["inputs"],
                            solver=dict(port=m.get("port"), jit=m.get("jit_value"), rtl=m.get("rtl_value")),
                            native=out, replay_cmd=f"{TVDUMP} jitdiff {r['path']} {m['top']} <inputs json>"),
                       open(rp, "w"), indent=1)
@@ -745,7 +752,7 @@ def run_c03(tier, seed, write_evidence, only=None):
             rp = os.path.join(ROOT, "evidence", "replay",
                               f"C03-{r['label'].replace('::', '_').replace('#', '_')}-{m['top']}.json")
             os.makedirs(os.path.dirname(rp), exist_ok=True)
-            json.dump(dict(property="C03", design=r["label"], path=r["path"], top=m["top"], inputs=m["inputs"],
+            json.dump(dict(property="C03", design=r["label"], path=r["path"], source=_src(r["path"]), top=m["top"], inputs=m["inputs"],
                            configuration=m.get("config"), environment=cfg_env.get(m.get("config")),
                            solver=dict(port=m.get("port"), jit=m.get("jit_value"), rtl=m.get("rtl_value")),
                            native=rows,
@@ -809,4 +816,72 @@ def run_c03(tier, seed, write_evidence, only=None):
         log("NOTE C03", n)
     print(f"OK property=C03 tier={tier} designs={proved} design_x_config={cfg_runs} queries={queries}")
     log(json.dumps(dict(distinct)))
+    return 0
+
+
+# ---------------------------------------------------------------------------------------------
+# --replay <file>: re-run one recorded counterexample natively on the CURRENT tree
+# ---------------------------------------------------------------------------------------------
+def replay_file(prop, path):
+    d = json.load(open(path))
+    prop = d.get("property", prop)
+    work = os.path.join(TARGET, "tvwork")
+    os.makedirs(work, exist_ok=True)
+    src = d.get("path")
+    if not (src and os.path.exists(src)):
+        if not d.get("source"):
+            log("replay: the design file is gone and the replay file carries no source")
+            return 2
+        src = os.path.join(work, "replay_" + os.path.basename(d.get("path") or "design.veryl"))
+        open(src, "w").write(d["source"])
+    top = d["top"]
+    if prop in ("C19", "C18", "C03") and not build_tvdump():
+        return 2
+    if prop == "C19":
+        if "stimulus" not in d:
+            log("replay: structural difference (clock edge), read directly from the netlist:", d.get("structural_difference"))
+            return 1
+        out, _ = replay(src, top, dict(stimulus=d["stimulus"], clock=d.get("clock"), cfg=d.get("cfg") or {}), work)
+        log("native:", json.dumps(out.get("first_diff")))
+        rep = bool(out.get("reproduced"))
+    elif prop in ("C18", "C03"):
+        if "inputs" not in d:
+            crashed, msg = replay_illtyped(src, top, work)
+            log("native:", msg)
+            rep = bool(crashed)
+        else:
+            rtlj = os.path.join(work, "replay_rtl.json")
+            subprocess.run([TVDUMP, "rtl", src, rtlj, top], capture_output=True)
+            try:
+                outs = [o["name"] for o in json.load(open(rtlj))["modules"][0]["rtl"]["outputs"]]
+            except Exception:  # noqa: BLE001
+                outs = []
+            sp = os.path.join(work, "replay_stim.json")
+            json.dump(dict(inputs=d["inputs"], outputs=outs), open(sp, "w"))
+            rows = []
+            for env in ([{}] if prop == "C18" else [{}, d.get("environment") or {}]):
+                e = dict(os.environ)
+                e.update(env)
+                p = subprocess.run([TVDUMP, "jitdiff", src, top, sp], capture_output=True, text=True, timeout=300, env=e)
+                try:
+                    rows.append(json.loads(p.stdout.strip().splitlines()[-1]))
+                except Exception:  # noqa: BLE001
+                    rows.append(dict(error=p.stderr[-200:]))
+                log("native", env, json.dumps(rows[-1])[:400])
+            if prop == "C18":
+                rep = bool(rows[0].get("differ")) or "error" in rows[0]
+            else:
+                rep = ("error" not in rows[0] and "error" not in rows[1] and
+                       (rows[0].get("jit") != rows[1].get("jit") or rows[0].get("interpreter") != rows[1].get("interpreter")))
+    elif prop == "C21":
+        if not build_tvaig():
+            return 2
+        v = d.get("solver")
+        rep = bool(native_aig_replay(src, top, d.get("comparison"), v, work))
+    else:
+        return None
+    if rep:
+        print(f"VIOLATION property={prop} replay={path}")
+        return 1
+    print(f"OK property={prop} replay does not reproduce on the current tree")
     return 0
